@@ -1,6 +1,6 @@
 SPECIFICATION Spec
 CONSTANTS
-  StrClasses = {"blank", "plain", "markup", "ws", "nonascii", "tricky"}
+  StrClasses = {"srclit", "blank", "plain", "markup", "ws", "nonascii", "tricky"}
   HoursSet = {"-5", "0", "1", "5", "24", "8760", "1000000"}
 INVARIANTS InvShape InvMeta Emit
 PROPERTIES Terminates
